@@ -144,7 +144,7 @@ class Printer:
                         item += " = " + self.e(d)
                     parts.append(item)
             txt = ", ".join(parts)
-            if p[1] and p[1][-1] is None:
+            if p[1] and p[1][-1] is None and p[2] is None:
                 txt += ","
             if p[2] is not None:
                 txt += (", " if parts else "") + "..." + self.pat(p[2])
@@ -179,7 +179,12 @@ class Printer:
 
     def body(self, f):
         pre = '"use strict"; ' if (f["f_strict"] and not self.strict_ctx) else ""
-        return "{ " + pre + " ".join(self.st(x) for x in f["f_body"]) + " }"
+        saved = self.strict_ctx
+        self.strict_ctx = saved or bool(f["f_strict"])      # nested functions inherit the directive: they must not repeat it
+        try:
+            return "{ " + pre + " ".join(self.st(x) for x in f["f_body"]) + " }"
+        finally:
+            self.strict_ctx = saved
 
     def function(self, idx, as_decl_name=None):
         f = self.p["p_funcs"][idx]
@@ -322,7 +327,7 @@ class Printer:
         if t == "ESuperCall":
             return "super" + self.args(e[1])
         if t == "ESeq":
-            return self.a(e[1]) + ", " + self.a(e[2])
+            return "(" + self.a(e[1]) + ", " + self.a(e[2]) + ")"
         if t == "ETemplate":
             out = "`"
             for i, st in enumerate(e[1]):
